@@ -109,9 +109,16 @@ func report(prop, tier string, seed int64, hs []harnessRef, results []*interp.Ha
 	coverOf := map[string]string{}
 	var hangPaths []string
 	var normalPaths []string
+	perKey := map[string]int{}
 	for _, r := range results {
 		for k, v := range r.Violations {
 			v.Harness = r.Name
+			// replay at most a few violations per (harness, assertion, tags) class
+			key := r.Name + "|" + v.Kind + "|" + v.Label + "|" + strings.Join(v.Tags, ",")
+			perKey[key]++
+			if perKey[key] > 3 {
+				continue
+			}
 			expect := "assert:" + v.Label
 			if v.Kind == "panic" {
 				expect = "panic"
